@@ -24,7 +24,7 @@ def sh(cmd, **kw):
 
 def main():
     prop = sys.argv[1].upper()
-    patches = sys.argv[2:] or sorted(glob.glob(os.path.join(ROOT, "mutants", prop, "*.patch")))
+    patches = [os.path.abspath(a) for a in sys.argv[2:]] or sorted(glob.glob(os.path.join(ROOT, "mutants", prop, "*.patch")))
     wt = f"/var/tmp/vf-sens-{prop}-{os.getpid()}"
     sh(["git", "-C", "/repo", "worktree", "add", "--detach", wt, "HEAD"])
     results = []
